@@ -7570,7 +7570,9 @@ def aten_normal_float_tensor(mean: FLOAT, std: TFloat) -> TFloat:
 
 
 @torch_op("aten::normal.Tensor_float", trace_only=True)
-def aten_normal_tensor_float(mean: TFloat, std: FLOAT) -> TFloat:
+def aten_normal_tensor_float(
+    mean: TFloat, std: FLOAT = 1.0, generator: Optional[str] = None  # pylint: disable=unused-argument
+) -> TFloat:
     """normal.Tensor_float(Tensor mean, float std=1, *, Generator? generator=None) -> Tensor"""
 
     sampled = op.RandomNormalLike(mean, mean=0.0, scale=1.0)
